@@ -181,6 +181,13 @@ let () =
       | [id; "SW"; ver; comp; reads; sizes] ->
         run_sw id (int_of_string ver) (int_of_string comp) (ints_of reads) (ints_of sizes) ops
       | [id; "RF"] -> run_rf id ops
+      | [id; "PV"] ->
+        let files = List.filter_map (fun op -> match split_ws op with
+          | ["f"; hp; rc; act] ->
+            Some ((hp = "1", n_of_string rc), (if act = "-" then None else Some (n_of_string act)))
+          | _ -> None) ops in
+        Printf.printf "%s PV %s\n" id
+          (match snapshot_validate files with PvTrue -> "T" | PvFalse -> "F" | PvPanic -> "P")
       | id :: "CZ" :: _ -> Printf.printf "%s CZ\n" id
       | id :: "BG" :: _ -> Printf.printf "%s BG\n" id
       | id :: "VS" :: _ -> Printf.printf "%s VS\n" id
